@@ -225,7 +225,7 @@ def finish(pid, tier, seed, cfg, reports, drift, extra, t0):
             path = os.path.join("replays", pid, sanitize(o["name"]) + ".json")
             rp = {"property": pid, "function": fid, "obligation": o["name"], "clause": o.get("clause"), "kind": o.get("kind"),
                   "solver": {"backend": o.get("backend"), "verdict": "sat (counter-model)" if o.get("model") is not None else "sat", "reason": o.get("reason"), "goal": o.get("goal")},
-                  "counter_model": o.get("model"), "repo": REPO, "custom_replay": o.get("custom_replay"),
+                  "counter_model": o.get("model"), "repo": REPO, "custom_replay": o.get("custom_replay") or cfg.get("custom_replay"),
                   "exit_kind": o.get("kind"), "modules": cfg.get("function_modules", {}).get(fid, cfg.get("modules")), "replay_ctx": (reports.get(fid) or {}).get("replay_ctx"),
                   "same_clause_fails_on_paths": [x["name"] for x in obs if x is not o]}
             with open(os.path.join(HERE, path), "w") as f:
